@@ -9,13 +9,13 @@ VERIF = Path(__file__).resolve().parents[1]
 CLAIMED = {
     "C01": (
         "Lean 4 simulation proof: Props.C01.sound / sound_exec — every untagged end state of the model of SEVM.run's exploration core (worklist, dispatch, Exec.check, jumpi with visit counters and loop bound, --depth, Path.append/concretization), under every valuation satisfying its path, is reached by the reference EVM (Spec.Evm) with exactly that halt, those returned bytes and that storage/transient storage of the executing account (WRel); no bound on program size, steps or inputs, no assumption on the solver; word instructions through C06's op_exact. Tie: exact model-vs-implementation comparison of the exploration on generated core programs with a fixed oracle, plus pointwise differential of the REAL SEVM against the Lean reference EVM on structured programs over the whole supported instruction set (memory, storage, hashing, logs, calls, creations) with solver-found and random inputs",
-        "Proof for the core instruction set (stack/word/control/calldata/environment instructions, memory MLOAD/MSTORE/MSTORE8/CALLDATACOPY/CODECOPY, RETURN/REVERT with data, RETURNDATASIZE/COPY, SLOAD/SSTORE/TLOAD/TSTORE on concrete slots < 2^64 with the static-context check: the theorem covers halt kind, returned bytes AND the storage of the halting world; everything else ends the model path as stuck, so the theorem is stated for all programs); an executable call machine (Model.SevmCalls: CALL/CALLCODE/DELEGATECALL/STATICCALL to literal targets with snapshot rollback) is tied to the real SEVM by the correspondence run, its simulation proof was in progress when this was written; hashing, symbolic slots, logs, value transfers and creations are covered by the differential run only (C08/C09 prove their components separately); halmos' own memory-limit errors are tagged end states about which nothing is claimed (hypothesis cfg.maxMem + 32 <= memLimit is visible in the statements). The concrete 1024-item stack limit, which halmos does not model, is an explicit disjunct of the theorem",
+        "Proof for the core instruction set (stack/word/control/calldata/environment instructions, memory MLOAD/MSTORE/MSTORE8/CALLDATACOPY/CODECOPY, RETURN/REVERT with data, RETURNDATASIZE/COPY, SLOAD/SSTORE/TLOAD/TSTORE on concrete slots < 2^64 with the static-context check: the theorem covers halt kind, returned bytes AND the storage of the halting world; everything else ends the model path as stuck, so the theorem is stated for all programs); Props.C01.sound_calls extends the simulation to nested message calls (Model.SevmCalls.runC: CALL/CALLCODE with literal zero value, DELEGATECALL, STATICCALL to literal targets with known code, any nesting depth, snapshot rollback of every account's storage on a failing callee, static-flag inheritance, return-area truncation, RETURNDATASIZE/COPY) against Spec.Evm.exec, with WRelM describing the storage of every modelled account in the halting world; symbolic targets, precompile/cheat addresses, value-bearing calls and depth 1024 end the model path as stuck; hashing, symbolic slots, logs, value transfers and creations are covered by the differential run only (C08/C09 prove their components separately); halmos' own memory-limit errors are tagged end states about which nothing is claimed (hypothesis cfg.maxMem + 32 <= memLimit is visible in the statements). The 1024-item stack limit, which halmos does not model, is a tagged end state of the model (stackLimit) about which nothing is claimed, and a recorded known finding",
         "Trusted: Lean kernel, Spec.Evm as the meaning of EVM execution, Model.Sevm (hand model; int_of substitution, calldata size candidates, PUSH32 empty-keccak and the dynamic-array overflow quick check are approximated as stuck), z3 only as a search aid for inputs; known findings recorded for MSIZE, value-bearing CALL in a static frame, JUMPI with symbolic condition and invalid destination",
         "DESIGN.md §4 C01",
     ),
     "C02": (
         "Lean 4 theorem Props.C02.complete: if the reference EVM terminates with halt h on an input, the model's run has an end state whose path the input satisfies and which reports h (or is stuck/tagged), or a flag is raised — requiring of the solver only that `unsat` answers are sound (discard_only_if_unsat, unknown_never_discards hold for every oracle and every branching timeout); tie as for C01 plus oracle stress (a seeded subset of Path.check queries forced to `unknown`) and solver-found 'covered by no path' inputs on the real SEVM",
-        "Proof for the core instruction set; alias resolution, symbolic JUMP enumeration, size candidates, insufficient-fund split and cheatcode branching are covered by the differential run (uncovered-input search) only; one recorded deviation (alias to the test-contract address) is not yet replayed by a directed case",
+        "Proof for the core instruction set and, through complete_calls, for nested message calls (same scope as C01.sound_calls); alias resolution, symbolic JUMP enumeration, size candidates, insufficient-fund split and cheatcode branching are covered by the differential run (uncovered-input search) only; one recorded deviation (alias to the test-contract address) is not yet replayed by a directed case",
         "Trusted: as C01; the documented modelling assumptions (hash range/injectivity, balances <= 2^128) are excluded as the property says",
         "DESIGN.md §4 C02",
     ),
@@ -27,7 +27,7 @@ CLAIMED = {
     ),
     "C10": (
         "Lean 4 theorems Props.C10.flagged (no flag and no satisfied stuck/tagged end state implies every terminating concrete input is reported by a satisfied end state), loop_bound_flag, concrete_loops_uncut, must_uncut (for every --loop, including 0), bounded_only_in_jumpi, cuts_flagged, flags_persist on the model of the exploration core; tie: exact comparison of flags with the real SEVM on core programs (--depth placed at the exact step count +-1), loop-heavy programs against the reference EVM, concrete-count loops under --loop 1..3, and end-to-end runs of run_contract on loop tests (regular, --width, --depth, setUp, invariant targets) requiring the warning whenever a failure lies beyond the cut",
-        "Proof on the core model for the SEVM-level flags; the propagation of flags to warnings / non-PASS in __main__.py is checked end to end (differential), not modelled in Lean",
+        "Proof on the core model for the SEVM-level flags (flagged_calls / cuts_flagged_calls for the call machine); the propagation of flags to warnings / non-PASS in __main__.py is checked end to end (differential), not modelled in Lean",
         "Trusted: as C01; halmos' logger as the observation point for warnings",
         "DESIGN.md §4 C10",
     ),
